@@ -69,6 +69,7 @@ type peer struct {
 	wclosed    bool
 	closed     bool
 	reset      bool
+	causal     bool // the peer ended (or half-ended) its side while the connection was still open on the gnet side
 }
 
 var pcount int
@@ -479,6 +480,18 @@ func runCase(w *tr.Writer, seed uint64, idx int, focus string) {
 		}
 	}
 
+	// the peer is about to close / half-close / reset: if gnet still has the connection open, that is a
+	// possible cause of its OnClose (for the nil / non-nil error rule of C04)
+	ending := func(p *peer) {
+		h.mu.Lock()
+		defer h.mu.Unlock()
+		for _, ci := range h.all {
+			if ci.cid == p.cid && ci.closed {
+				return
+			}
+		}
+		p.causal = true
+	}
 	live := func() []*peer {
 		var l []*peer
 		for _, p := range peers {
@@ -595,6 +608,7 @@ func runCase(w *tr.Writer, seed uint64, idx int, focus string) {
 			data := rnd.Bytes(5000)
 			n, _ = peers[1].conn.Write(data)
 			peers[1].sent = append(peers[1].sent, data[:n]...)
+			ending(peers[1])
 			peers[1].conn.Close()
 			peers[1].closed = true
 			time.Sleep(10 * time.Millisecond)
@@ -776,6 +790,7 @@ func runCase(w *tr.Writer, seed uint64, idx int, focus string) {
 			p.sent = append(p.sent, data[:n]...)
 			if k >= 41 && n == len(data) {
 				// the last bytes and the close (or half-close) arrive back to back: often one event
+				ending(p)
 				if k >= 43 {
 					switch c := p.conn.(type) {
 					case *net.TCPConn:
@@ -806,6 +821,7 @@ func runCase(w *tr.Writer, seed uint64, idx int, focus string) {
 			if p.wclosed {
 				continue
 			}
+			ending(p)
 			switch c := p.conn.(type) {
 			case *net.TCPConn:
 				c.CloseWrite()
@@ -817,12 +833,14 @@ func runCase(w *tr.Writer, seed uint64, idx int, focus string) {
 			woken(seq, expect(p))
 		case k < 70:
 			p := lp[rnd.Intn(len(lp))]
+			ending(p)
 			p.conn.Close()
 			p.closed = true
 			w.Hist("peer-close")
 			woken(seq, expect(p))
 		case k < 73:
 			p := lp[rnd.Intn(len(lp))]
+			ending(p)
 			if c, ok := p.conn.(*net.TCPConn); ok {
 				c.SetLinger(0)
 			}
@@ -1123,6 +1141,16 @@ func finalOracles(rec *recorder, h *handler, cfg *caseCfg, peers []*peer) {
 				rec.failLocked("fault-close-error", f, fmt.Sprintf("cid %d: OnClose carried a nil error after %s", ci.cid, f))
 			}
 			continue
+		}
+		// C04: OnClose carries nil for a locally requested close (or the shutdown sweep) and a non-nil
+		// error for a peer- or I/O-induced one
+		if ci.opened && ci.closed && !ci.udp && cfg.proto != "udp" {
+			if !ci.closeErr && !ci.localReq && !ci.closedInSweep {
+				rec.failLocked("lifecycle", "nil-error-without-local-close", fmt.Sprintf("cid %d: OnClose carried a nil error although no local close was requested and the engine was not shutting down", ci.cid))
+			}
+			if ci.closeErr && ci.localReq && !p.causal && len(rec.injected) == 0 {
+				rec.failLocked("lifecycle", "error-on-local-close", fmt.Sprintf("cid %d: OnClose carried an error although the close was requested locally and neither the peer nor an I/O failure ended the connection", ci.cid))
+			}
 		}
 		// C04: every opened connection is closed by the time Run returns
 		if ci.opened && !ci.closed {
